@@ -119,6 +119,24 @@ class Installed:
                     return orig(self_, *a, **k)
                 return wrapper
             setattr(M.QRCode, name, make(orig, name))
+        # image side: constructor, drawer initialisation, and (sparsely) the per-module drawing calls
+        import qrcode.image.base as IB
+        self.saved_img = []
+        for cls, name, every in ((IB.BaseImage, "__init__", 1), (IB.BaseImageWithDrawer, "init_new_image", 1),
+                                 (IB.BaseImageWithDrawer, "drawrect_context", 61), (M.QRCode, "make_image", 1)):
+            orig = cls.__dict__[name]
+            self.saved_img.append((cls, name, orig))
+
+            def make2(orig, name, every):
+                cnt = [0]
+
+                def wrapper(self_, *a, **k):
+                    cnt[0] += 1
+                    if SchedDict.ctl is not None and (every == 1 or cnt[0] % every == 1):
+                        SchedDict.ctl.yield_point("call:" + name)
+                    return orig(self_, *a, **k)
+                return wrapper
+            setattr(cls, name, make2(orig, name, every))
         self.saved_reg = ET.register_namespace
 
         def reg(prefix, uri, _orig=ET.register_namespace):
@@ -144,4 +162,6 @@ class Installed:
         ET._namespace_map.clear(); ET._namespace_map.update(curns)
         for name, orig in self.saved_methods.items():
             setattr(M.QRCode, name, orig)
+        for cls, name, orig in self.saved_img:
+            setattr(cls, name, orig)
         ET.register_namespace = self.saved_reg
